@@ -277,7 +277,15 @@ impl Check for StepCheck {
             prof.nick_pool += 4;
             prof.chan_pool += 2;
         }
+        let big = matches!(self.id, "C04" | "C16" | "C01" | "C09" | "C15") && r.fork(13).chance(1, 40);
+        if big {
+            // a crowd: 22-27 users on one channel (rosters longer than one reply line)
+            prof.conns = (22, 27);
+            prof.pre_register = 27;
+            prof.steps = (15, 40);
+        }
         let mut g = Gen::new(r.next_u64(), &cfg, &prof);
+        g.big_channel = big;
         g.frag = r.fork(11).chance(1, 5);
         g.pipe = r.fork(12).chance(1, 5);
         g.setup();
